@@ -1071,17 +1071,19 @@ def _sub_reuse(sh, case):
         G, D, P = st["G"], st["D"], st["P"]
         ref = _reference_states(G, D.boundary)
         if len(ref) < 1:
-            raise AssertionError(f"alphabet error: {len(ref)} admissible states after {word} from {shape0}")
+            # e.g. a rectangle fitted to the refined grid, then a coarser grid assigned: no admissible state, not a domain
+            sh.count("reuse-word-cut-at-empty-domain")
+            return False
         prefix = f"C14:reuse:d{dim}:{bcls}:after-{last}"
         if prefix in reported:
-            return
+            return True
         with _ScriptedChoice():
             got, exhausted = _enumerate(StatesManager(pairing=P, domain=D, grid=G), len(ref))
         what = f"shape {shape0}, history {word} (axes now {[len(a) for a in G.axes]} points)"
         ok = _judge_enumeration(sh, prefix, what, got, exhausted, ref)
         if not ok:
             reported.add(prefix)
-            return
+            return True
         walked = []
 
         def probability(inc):
@@ -1097,6 +1099,7 @@ def _sub_reuse(sh, case):
             sh.violation(f"{prefix}:sampler-walk-differs-from-plain-enumeration",
                          f"{what}: a draw beyond the total mass walked {len(walked)} states {walked[:6]}..., the plain enumeration "
                          f"gives {len(got)} states {got[:6]}...", None)
+        return True
 
     def apply(st, op):
         G, D, P = st["G"], st["D"], st["P"]
@@ -1150,7 +1153,8 @@ def _sub_reuse(sh, case):
         judge(st, "construction", [])
         for j, op in enumerate(word):
             apply(st, op)
-            judge(st, op, list(word[:j + 1]))
+            if not judge(st, op, list(word[:j + 1])):
+                break
     sh.outcome((tuple(shape0), bnd0, case["first"], nwords))
     sh.nontriv()
     sh.cls(f"reuse:d{dim}:boundary-{bnd0}:first-{case['first']}")
